@@ -402,3 +402,23 @@ def nontrivial(case, out):
 
 def matches_known(k, v):
     return False
+
+
+# ---------------------------------------------------------------- the real event loop (engine: extra_cases)
+# The c09 adapter plays the connection task. The `tcploop` area drives the REAL `TcpConnection::start` loop over
+# loopback TCP (remote substreams whose negotiation is stretched over the expiry of every handle, stalled outbound
+# opens, messages in flight) and ties it to Model/Conn/Permits.lean, where the permit of an inbound substream is taken
+# at accept time. Judged here by the property-level oracle `tcploop.oracle_c09`.
+def extra_cases(rng, tier):
+    from . import tcploop
+    yield "TCPLOOP", tcploop.gen_cases(rng, tier, focus="C09")
+
+
+def oracle_extra(xpid, case, out):
+    from . import tcploop
+    return [dict(v, msg="(real TcpConnection loop, tcploop area) " + v["msg"]) for v in tcploop.oracle_c09(case, out)]
+
+
+def stats_extra(xpid, case, out, acc):
+    from . import tcploop
+    tcploop.stats(case, out, acc)
